@@ -209,6 +209,15 @@ def run_case(case):
                 if table.get(n) in ("submitted", "running"):
                     viols.append(Violation({"kind": "still-in-flight-after-cancel", "backend": flavour},
                                            f"{n} shows {table.get(n)} after its job {latest[n].id} was cancelled"))
+            # a cancel the scheduler refused leaves the job where it was: gwf still knows it
+            for n in sel_tracked:
+                j = latest[n]
+                if j.id in failed_ids and not j.ended and j.in_queue and not j.code:
+                    want_ = "running" if j.state == simsched.RUNNING else "submitted"
+                    if table.get(n) != want_:
+                        viols.append(Violation({"kind": "live-job-forgotten-after-refused-cancel", "backend": flavour},
+                                               f"the cancel of {n}'s job {j.id} was refused ({case['fault_kind']}); the job is still "
+                                               f"{want_}, but status shows {table.get(n)!r}"))
             # a cancelled job may have written its outputs already: fresh outputs must not hide the cancellation
             if case.get("outputs_exist") and flavour != "sge":
                 for n in ok_cancelled:
